@@ -708,6 +708,99 @@ Section MuxProofs.
       cbn [path_cfg path_regs n_cfg n_apps n_committed]. rewrite Ha. reflexivity.
   Qed.
 
+  (* ---- system transactions and the upgrade hook, explicitly ---- *)
+  Lemma process_tx_scratch cfg apps pr pg raw s sc r :
+    process_tx S Deliver cfg apps pr pg raw s sc = Some r ->
+    snd r = sc \/ exists t md, sg_decode S s raw = inl t /\ sg_is_meta S t = Some md /\ snd r = sc ++ [md].
+  Proof.
+    unfold process_tx. destruct (sg_decode S s raw) as [t|e]; [|intros H; inversion H; left; reflexivity].
+    destruct (sg_is_meta S t) as [md|] eqn:Em.
+    - destruct pg; [discriminate|]. destruct (negb (sg_meta_ok S pr t)); [discriminate|].
+      intros H; inversion H. right. exists t, md. auto.
+    - destruct (find_app S apps t) as [a|]; [|intros H; inversion H; left; reflexivity].
+      destruct (if sg_is_critical S t then _ else _) as [[s1 ev1]|e]; [|intros H; inversion H; left; reflexivity].
+      destruct (sg_byte_gas S s1 raw t); [intros H; inversion H; left; reflexivity|].
+      destruct (_ && _ && _); [intros H; inversion H; left; reflexivity|].
+      destruct (a_exec S a Deliver t s1) as [[s2 ev2] [e|]]; [intros H; inversion H; left; reflexivity|].
+      destruct (sg_post_exec S t s2); intros H; inversion H; left; reflexivity.
+  Qed.
+
+  Definition meta_in (txs : list bytes) (md : bytes * bytes) : Prop :=
+    exists raw s_mid t, In raw txs /\ sg_decode S s_mid raw = inl t /\ sg_is_meta S t = Some md.
+
+  Lemma deliver_all_scratch cfg apps pr pg txs : forall s sc acc s' acc' sc',
+    deliver_all S cfg apps pr pg txs s sc acc = Some (s', acc', sc') ->
+    forall md, In md sc' -> In md sc \/ meta_in txs md.
+  Proof.
+    induction txs as [|raw r IH]; intros s sc acc s' acc' sc'; cbn [deliver_all].
+    - intros H; inversion H; subst. intros md Hin. left. exact Hin.
+    - destruct (process_tx S Deliver cfg apps pr pg raw s sc) as [[[[s1 ev] res] sc1]|] eqn:E; [|discriminate].
+      intros H md Hin. destruct (IH _ _ _ _ _ _ H md Hin) as [Hin1|(raw' & sm & t & Hr & Hd & Hm)].
+      + apply process_tx_scratch in E. cbn [snd] in E. destruct E as [->|(t & md' & Hd & Hm & ->)]; [left; exact Hin1|].
+        apply in_app_or in Hin1 as [Hin1|[<-|[]]]; [left; exact Hin1|].
+        right. exists raw, s, t. split; [left; reflexivity|split; assumption].
+      + right. exists raw', sm, t. split; [right; exact Hr|split; assumption].
+  Qed.
+
+  (* A block that a validating / replaying node accepts: (a) carries a block-metadata
+     transaction whose state root is the root of the state the node commits and whose events
+     root is the root of all the block's events; (b) that state is the one AFTER the consensus
+     upgrade handler's EndBlock writes, and the handler's events are part of the end events. *)
+  Theorem accepted_block_binds_metadata_and_upgrade cfg apps s b s' o :
+    exec_block S cfg apps false s b = Some (s', o) ->
+    meta_in (b_txs b) (sg_root S s', o_events_root S o) /\
+    o_events_root S o = sg_evroot S (all_events S o) /\
+    exists s3 uev eev, sg_upgrade_end S (b_header b) s3 = Some (s', uev) /\ o_end_events S o = eev ++ uev.
+  Proof.
+    unfold exec_block. change endblock_upgrade_before_validate with true. cbn iota.
+    destruct (sg_upgrade_begin S (b_header b) s) as [[s0 uev0]|]; [|discriminate].
+    destruct (begin_all S apps (binfo_of b) s0 uev0) as [[s1 bev]|]; [|discriminate].
+    destruct (deliver_all S cfg apps (h_proposer (b_header b)) false (b_txs b) s1 [] []) as [[[s2 txr] sc]|] eqn:Ed; [|discriminate].
+    destruct (end_all S apps s2 [] []) as [[[s3 eev] vu]|]; [|discriminate].
+    destruct (sg_upgrade_end S (b_header b) s3) as [[s4 uev]|] eqn:Eu; [|discriminate].
+    unfold validate_system. destruct sc as [|[sr er] [|? ?]]; try discriminate.
+    destruct (bytes_eqb sr (sg_root S s4) && bytes_eqb er _) eqn:Ev; [|discriminate].
+    intros H; inversion H; subst s' o; clear H. cbn [o_events_root o_end_events].
+    apply andb_true_iff in Ev as [E1 E2]. apply bytes_eqb_eq in E1, E2. subst sr er.
+    split; [|split; [reflexivity|exists s3, uev, eev; split; [exact Eu|reflexivity]]].
+    destruct (deliver_all_scratch _ _ _ _ _ _ _ _ _ _ _ Ed _ (or_introl eq_refl)) as [[]|Hm]. exact Hm.
+  Qed.
+
+  (* History level: whenever two replicas get through the same blocks (replicas_agree), the
+     state each of them holds after the last block is the one bound by that block's metadata
+     transaction, i.e. both hold the state the proposer announced. *)
+  Lemma spec_run_last cfg0 base bs : forall s outs s' outs',
+    spec_run cfg0 base s bs outs = Some (s', outs') ->
+    (bs = [] /\ s' = s /\ outs' = outs) \/
+    exists b s_prev o, last bs b = b /\ In b bs /\
+      exec_block S cfg0 (sort_by (a_name S) base) false s_prev b = Some (s', o) /\ exists pre, outs' = pre ++ [o].
+  Proof.
+    induction bs as [|b r IH]; intros s outs s' outs'; unfold spec_run; cbn [fold_left].
+    - intros H; inversion H. left. auto.
+    - cbn [spec_step]. destruct (exec_block S cfg0 _ false s b) as [[s1 o1]|] eqn:E; [|rewrite fold_spec_none; discriminate].
+      intros H. destruct (IH s1 (outs ++ [o1]) s' outs' H) as [(-> & -> & ->)|(b' & sp & o & Hl & Hin & He & pre & Hp)].
+      + right. exists b, s, o1. cbn [last]. repeat split; [left; reflexivity|exact E|exists outs; reflexivity].
+      + right. exists b', sp, o. split; [|split; [right; exact Hin|split; [exact He|exists pre; exact Hp]]].
+        destruct r as [|x r']; [destruct Hin|]. cbn [last]. exact Hl.
+  Qed.
+
+  Theorem replicas_hold_the_announced_state base n ops n' cs outs :
+    NoDup (map (a_name S) base) -> Permutation base (n_apps S n) -> n_cache S n = None -> ops_ok base ops ->
+    run S n ops = Some ((n', cs), outs) -> blocks_of S ops <> [] ->
+    exists b o, In b (blocks_of S ops) /\ last (blocks_of S ops) b = b /\
+      meta_in (b_txs b) (sg_root S (n_committed S n'), o_events_root S o) /\
+      o_events_root S o = sg_evroot S (all_events S o) /\
+      (exists s3 uev eev, sg_upgrade_end S (b_header b) s3 = Some (n_committed S n', uev) /\ o_end_events S o = eev ++ uev) /\
+      exists pre, outs = pre ++ [o].
+  Proof.
+    intros Hnd Hp Hc Hok Hrun Hne.
+    pose proof (run_spec (n_cfg S n) base ops Hnd n (n_committed S n) [] Hc Hp Hok) as Hs.
+    unfold run in Hrun. rewrite Hrun in Hs. cbn [observe option_map fst snd] in Hs. symmetry in Hs.
+    destruct (spec_run_last _ _ _ _ _ _ _ Hs) as [(E & _)|(b & sp & o & Hl & Hin & He & pre & Hpre)]; [contradiction|].
+    destruct (accepted_block_binds_metadata_and_upgrade _ _ _ _ _ _ He) as (Hm & Hr & Hu).
+    exists b, o. repeat split; try assumption. exists pre. exact Hpre.
+  Qed.
+
   (* ---- histories with failed rounds ---- *)
   (* one block on a node whose cache satisfies the invariant *)
   Lemma run_path_inv base p n b :
